@@ -114,14 +114,15 @@ class Projector:
                 "act": ["-"] if act is None else sorted(act),
                 "bypass": bool(ctx.get("_jump_bypass", False)),
                 "jumps": int(ctx.get("_jump_count", 0)),
-                "buf": len(ctx.get("_buffered_signals", []) or []),
-                "sig": bool(ctx.get("_signal_name")),
+                "buf": [str(x.get("signal_name", "")) for x in (ctx.get("_buffered_signals", []) or [])],
+                "sig": str(ctx.get("_signal_name") or ""),
             }
             for t in self.c.execute("SELECT id, name, status, version FROM task_executions WHERE stage_id = ? ORDER BY id",
                                     (r["id"],)):
                 self.task_name[t["id"]] = t["name"]
                 tk[t["name"]] = {"status": t["status"], "ver": t["version"],
-                                 "prog": int(ctx.get("prog." + t["name"], 0))}
+                                 "prog": int(ctx.get("prog." + t["name"], 0)),
+                                 "seen": sorted(ctx.get("seen." + t["name"], []))}
         q = [self.msg(r, now) for r in self.c.execute("SELECT * FROM queue_messages ORDER BY id")]
         dlq = [{"id": self.key_of(r["original_id"]), "att": r["attempts"]}
                for r in self.c.execute("SELECT * FROM queue_messages_dlq ORDER BY id")]
